@@ -4,6 +4,8 @@ import (
 	"bytes"
 	"fmt"
 	"path"
+	"runtime"
+	"runtime/debug"
 	"sort"
 	"strings"
 
@@ -170,7 +172,7 @@ func c08Sizes(tier string) (truncP, truncT, flipP, flipT, cross, rderr, ill int)
 
 func (c08) NumCases(tier string) int {
 	a, b, c, d, e, f, g := c08Sizes(tier)
-	return a + b + c + d + e + f + g + c08OpFaultWorlds(tier) + c08IllCrossN() + c08ScaleN() + c08TwoChangeN() + c08TreeWorlds(tier)
+	return a + b + c + d + e + f + g + c08OpFaultWorlds(tier) + c08IllCrossN() + c08ScaleN() + c08TwoChangeN() + c08BulkN() + c08TreeWorlds(tier)
 }
 
 func c08TreeWorlds(tier string) int {
@@ -194,7 +196,7 @@ func (c08) Describe() CheckInfo {
 		},
 		RealCode:       []string{"gopatch main(), loader, internal/parse (section splitter, meta parser), internal/pgo (augmenter), internal/engine, patch.Parse/File.Apply"},
 		Stubs:          []string{"package os (patch delivered through simulated files and a chunked simulated stdin)", "path/filepath walk", "io/ioutil"},
-		RequiredProbes: []string{"trunc-patch", "trunc-target", "flip-patch", "flip-target", "cross", "read-error-fired", "ill-typed", "op-fault", "ill-cross", "scale", "two-change", "tree", "tree-symlink-cycle", "patch-rejected", "patch-accepted", "stdin-short-reads", "api-parse", "api-apply"},
+		RequiredProbes: []string{"trunc-patch", "trunc-target", "flip-patch", "flip-target", "cross", "read-error-fired", "ill-typed", "op-fault", "ill-cross", "scale", "two-change", "bulk", "bulk-memory-measured", "tree", "tree-symlink-cycle", "patch-rejected", "patch-accepted", "stdin-short-reads", "api-parse", "api-apply"},
 	}
 }
 
@@ -326,10 +328,17 @@ func (c08) Gen(env *Env, seed uint64, tier string, i int) *Case {
 			inputs = []CorpusFile{{Name: "t.go", Data: src}}
 			c.Extra["what"] = nm
 			c.Extra["key"] = nm
+		case j < c08IllCrossN()+c08ScaleN()+c08TwoChangeN()+c08BulkN():
+			c.Sub = "bulk"
+			nm, pt, src := c08Bulk(j - c08IllCrossN() - c08ScaleN() - c08TwoChangeN())
+			patch = pt
+			inputs = []CorpusFile{{Name: "t.go", Data: src}}
+			c.Extra["what"] = nm
+			c.Extra["key"] = nm
 		default:
 			// directory trees with symlinks of every kind (also cyclic), fifos, odd
 			// names: enumeration must terminate and must not crash
-			t := Lookup("C15").Gen(env, seed, tier, j)
+			t := Lookup("C15").Gen(env, seed, tier, j-c08IllCrossN()-c08ScaleN()-c08TwoChangeN()-c08BulkN())
 			t.Prop, t.Sub = "C08", "tree"
 			t.Idx = i
 			t.Extra["what"] = "generated directory tree"
@@ -519,7 +528,26 @@ func (c08) Eval(env *Env, c *Case) (vs []Violation) {
 		}
 	}
 	init := c.InitialState()
+	var m0 runtime.MemStats
+	if c.Sub == "bulk" {
+		runtime.GC()
+		runtime.ReadMemStats(&m0)
+	}
 	r := env.Run(spec)
+	if c.Sub == "bulk" {
+		// memory obtained from the operating system is a high-water mark: a run
+		// that makes it jump by gigabytes for an input of at most a few hundred
+		// kilobytes holds a structure quadratic in the length of some list
+		var m1 runtime.MemStats
+		runtime.ReadMemStats(&m1)
+		grown := int64(m1.Sys) - int64(m0.Sys)
+		env.Probe("bulk-memory-measured")
+		if grown > 768<<20 {
+			add("memory", "quadratic-growth", fmt.Sprintf("processing a %d-byte file made the process obtain %d MiB more from the operating system", len(c.NodeData(c.Files[0].Path)), grown>>20))
+		}
+		runtime.GC()
+		debug.FreeOSMemory()
+	}
 	outcome := r.Outcome
 	switch r.Outcome {
 	case OutCrash:
